@@ -72,6 +72,23 @@ CLAIMS = {
              "decision skeletons. Does not decide equality of replies with Redis.",
         technique="MIR provenance/dominance pairing rules over all executor handlers, path search with exempt edges, sibling CFG-skeleton comparison",
         ref="DESIGN.md §3 C01"),
+    "C03": dict(
+        text="Decides structural clauses of C03: R03.1 all key->shard functions use the same Hash impl/hasher and reduce modulo the "
+             "shard count (checked in every feature configuration); R03.2 each of the 13 `shards[..]` index sites derives from "
+             "hash_key*(served key), a direct enumerate() of the per-shard bucket vector, a bucket-map key produced by hash_key, or "
+             "the key-less constant-0 fallback; R03.3 every multi-key variant (derived from Command::get_keys) has a partitioning arm "
+             "(8 known findings); R03.4 keyspace-wide commands fan out (RANDOMKEY known finding); R03.6 generic dispatch sends only "
+             "timed messages with the virtual time read at entry. Does not decide reply equality.",
+        technique="resolved generic-argument comparison of Hash::hash callees, index provenance analysis, enum dispatch tables derived from MIR",
+        ref="DESIGN.md §3 C03"),
+    "C05": dict(
+        text="Decides structural clauses of C05 on the connection handler's coroutine MIR: R05.1 every executing call is behind "
+             "!in_transaction or in the EXEC arm; R05.2 EXEC/DISCARD reset all four state fields on every path; R05.3 the replay loop "
+             "pushes exactly one result per queued command with no early exit; R05.4 the WATCH observer must be type-total (known "
+             "finding: GET collapses non-strings); R05.5 control arms exist in both states; R05.6 WATCH only appends snapshots; R05.7 "
+             "queue-time parse errors always set the abort flag. Does not decide isolation against other connections.",
+        technique="dominance by state-test edges, path search with exempt edges per enum-dispatch arm, who-may-mutate scan of the snapshot list",
+        ref="DESIGN.md §3 C05"),
 }
 
 PENDING_REASON = "check not built yet (build in progress; DESIGN.md §3 lists the planned structural clauses)"
